@@ -253,6 +253,11 @@ def run_job(job):
             if w and s != basestr:
                 acc.ob("corrupted_still_valid")
             acc.check("map", {"data": s.hex(), "what": "edited address"}, chk_map)
+        # the valid address wrapped the way other notations wrap it (BIP21 URI scheme, whitespace, quotes, a query part)
+        for s in [p + basestr for p in (b"bitcoin:", b"BITCOIN:", b"bitcoin://", b"Bitcoin:", b"lightning:", b" ", b"\n", b"\t", b'"', b"'", b"<", b"\xef\xbb\xbf")] + [basestr + q for q in (b"?amount=1", b" ", b"\n", b"\r\n", b'"', b"'", b">", b"\x00", b",", b"/")] + [b"bitcoin:" + basestr + b"?amount=0.1"]:
+            acc.evaluations += 1
+            acc.nontrivial += 1
+            acc.check("map", {"data": s.hex(), "what": "wrapped address"}, chk_map)
         acc.sample({"base": basestr.decode()})
     elif part == "keybufs":
         sh, nsh = job["shard"]
